@@ -77,12 +77,40 @@ def match_brace(shadow, open_pos, open_ch='{', close_ch='}'):
 _cache = {}
 
 
+def blank_if0(text):
+    """`#if 0 ... [#else ...] #endif`: the dead branch and the directive lines
+    are blanked (same length), so that brace matching sees the code the
+    compiler sees.  Only the literal `#if 0` is handled."""
+    out = list(text)
+
+    def blank(a, b):
+        for k in range(a, b):
+            if out[k] != '\n':
+                out[k] = ' '
+    for m in re.finditer(r'^[ \t]*#if 0[ \t]*\n', text, re.M):
+        depth, pos, else_at = 1, m.end(), None
+        for d in re.finditer(r'^[ \t]*#(if|ifdef|ifndef|else|endif)\b[^\n]*\n?', text[m.end():], re.M):
+            kw = d.group(1)
+            if kw in ('if', 'ifdef', 'ifndef'):
+                depth += 1
+            elif kw == 'else' and depth == 1:
+                else_at = (m.end() + d.start(), m.end() + d.end())
+            elif kw == 'endif':
+                depth -= 1
+                if depth == 0:
+                    end = (m.end() + d.start(), m.end() + d.end())
+                    blank(m.start(), (else_at[1] if else_at else end[1]))
+                    blank(end[0], end[1])
+                    break
+    return ''.join(out)
+
+
 def load(relpath):
     path = os.path.join(repo_root(), relpath)
     key = (path, os.path.getmtime(path))
     if key not in _cache:
         with open(path, encoding='utf-8', errors='replace') as f:
-            text = f.read()
+            text = blank_if0(f.read())
         _cache[key] = (text, blank_comments_and_strings(text))
     return _cache[key]
 
